@@ -4,6 +4,11 @@ spec/Cpx.tla (design), spec/CpxProps.tla (the property), spec/CpxTrace.tla (moni
 conformance for traces recorded from the real CPXPacket / SocketTransport / CPXRouter /
 TcpDriver / SerialDriver code running on a scripted in-memory socket).
 
+Uplink: several sender threads use one link at the same time (send_packet from library threads,
+CPX.sendPacket from an application); every socket write is a scheduling point; the monitor parses
+the bytes in the order they were written and compares per sender (CpxProps (5)).  A sender hands
+some CRTPPacket objects over more than once.
+
 Python here only drives the code, records what it did and converts representations
 (bytes <-> integer lists, enums <-> their integer values).  Every verdict is TLC's."""
 import bisect
@@ -1389,7 +1394,8 @@ def main(tier, seed, replay=None):
     out.distinct = len({json.dumps([j.get('kind'), j.get('pkts'), j.get('cuts'), j.get('rcv'), j.get('sends'), j.get('senders')])
                         for j in all_jobs})
     out.exhaustive = True
-    out.rule = ('execution = (packet sequence, cut set, receivers, CRTP sends, schedule seed) on the real code; '
+    out.rule = ('execution = (packet sequence, cut set, receivers, sender threads (send_packet calls with fresh and '
+                're-used packet objects, CPX.sendPacket calls), schedule seed) on the real code; '
                 'exhaustive: every source x destination x function x flag x version per payload length (codec), '
                 'every cut set of every stream of <= 3 packets up to %d bytes at transport level (compact), up to %d '
                 'bytes with every recv recorded, up to %d bytes through CPXRouter, up to %d bytes through '
